@@ -14,7 +14,8 @@ def main():
         d = os.path.join(ROOT, "seeded", sid)
         meta = json.load(open(os.path.join(d, "meta.json")))
         prop = meta.get("property") or sid.split("-")[0]
-        r = subprocess.run([sys.executable, os.path.join(ROOT, "tools", "mutest.py"), os.path.join(d, "patch.diff"), "quick", prop], stdout=subprocess.PIPE, text=True)
+        r = subprocess.run([sys.executable, os.path.join(ROOT, "tools", "mutest.py"), os.path.join(d, "patch.diff"), "quick", prop], stdout=subprocess.PIPE, text=True,
+                           env=dict(os.environ, MUTEST_NO_REBUILD="1"))
         res = {}
         for l in r.stdout.splitlines():
             if l.startswith("{"):
@@ -32,6 +33,7 @@ def main():
         print(f"{sid}: {verdict} {cr['signatures'][:2]}", flush=True)
         if got.get("exit") != 1:
             missed.append(sid)
+    subprocess.run([os.path.join(ROOT, "vcheck"), "build", "debug", "release"], cwd=ROOT, stdout=subprocess.DEVNULL)
     print("missed:", missed)
     return 1 if missed else 0
 
